@@ -48,7 +48,7 @@ CLAIMED = {
    text='Coq theorems for an arbitrary step function: resume composition for any number of pauses at any boundaries, independence of copy and original, '
         'AlreadyRun guards, scaling applied at most once over any sequence of run/finalize calls; stop-index semantics of run(until) compared with the '
         'implementation. The proviso of the theorems (restored state = taken state) is tested on the real object graph by a boundary sweep x '
-        '{none, deepcopy, pickle, save/load} x single/double pauses with exact comparison to an uninterrupted twin.',
+        '{none, deepcopy, pickle, save/load} x single/double pauses with exact comparison to an uninterrupted twin. A shrunken snapshot written on the side (save(shrink=True)) and the default save of the finished run must leave the live simulation alone; waiting lists come back from every restore in the same order. Two handles sharing the results but not the completion flags finalise twice (refuted in Coq, listed finding).',
    note='Trusted: Coq kernel, translator pins on Loop.run/Sim.run/finalize, harness. Fidelity of deepcopy/pickle/save-load of the Python object graph is NOT proved '
         '(it is what the sweep tests); configurations using the process-global NumPy generator (Births) are excluded here and covered by C01.',
    technique='Coq resume-algebra proof over an abstract step function + exhaustive boundary/restore-mode sweep against the real sim',
